@@ -41,6 +41,7 @@ def run(F, R):
     k4_siblings(F, R, ops)
     k5_status(F, R)
     k6_capacity(F, R)
+    k12_device_id(F, R, M, roles)
     # K7: outstanding requests may complete in any order - necessary condition on descriptor recycling (C03.E6)
     # K8: data part device-readable for writes / device-writable for reads depends on the descriptor flags being
     # exactly extra|direction for every previous content of the slot (shared with C01.F1)
@@ -283,6 +284,29 @@ def k4_siblings(F, R, ops):
                 '%d status read(s), all after the completion call' % len(reads),
                 '%s reads the response status%s before the completion is consumed: it reports what the buffer held before the device answered '
                 '(with a bouncing HAL the device\'s byte only arrives when pop_used unshares the buffer)' % (name, (' at %s' % site(sg, early[0])) if early else ''))
+
+
+def k12_device_id(F, R, M, roles):
+    """The id query reports the bytes before the first NUL, or all 20 bytes when there is none."""
+    for b in F.bodies.values():
+        if b.get('impl_adt') != DRV or b['kind'] != 'AssocFn' or not b.get('pub') or '[u8; 20]' not in b.get('sig', ''):
+            continue
+        sg = supergraph(F, b['id'], opaque=lambda t, bb: bb['id'] in roles or (bb.get('impl_adt') == DRV and bb['id'] != b['id']), tag='k12')
+        where = fn_site(F, b['id'])
+        paths = [p for p in PathEnum(sg).run() if not p.panicked and err_variant(p.ret) == 'Ok']
+        bad = None
+        for p in paths:
+            v = strip_conv(p.ret[2][0])
+            if v[0] == 'call' and v[2].endswith('::unwrap_or') and len(v[3]) > 1:
+                fb = strip_conv(v[3][1])
+                full = const_int(fb) == 20 or (fb[0] == 'call' and fb[2].endswith('::len'))
+                if not full:
+                    bad = 'an id without a NUL byte is reported with length %s instead of 20' % fmt(fb)[:60]
+                if not (v[3][0][0] == 'call' and v[3][0][2].endswith('::position')):
+                    bad = 'the length is not the position of the first NUL byte'
+            else:
+                bad = 'unrecognised length computation %s' % fmt(v)[:80]
+        R.check(bad is None and bool(paths), 'K12', 'device_id:length', where, 'length = position of the first NUL, else 20', 'device id: %s' % bad)
 
 
 def k5_status(F, R):
